@@ -142,7 +142,7 @@ class DeepLiftShap(Contract):
         N, Ad, Ld, T = A.dim('N', 1), A.dim('A', 1), A.dim('L', 1), A.dim('T', 1)
         X = A.tensor('X', 3, 'real', shape=[N, Ad, Ld])
         rw = RowWise('M', None, 'tuple', [[T]], recording=A.scope is not None)
-        model = Opaque('M', 'model', {'rowwise': rw, 'training': z3.Bool('M.training0'), 'require_eval_nograd': False,
+        model = Opaque('M', 'model', {'rowwise': rw, 'training': z3.Bool('M.training0'), 'sub_training': z3.Bool('M.sub_training0'), 'require_eval_nograd': False, 'require_eval': True,
                                       'n_args': cfg['na'], 'types': ['model'], 'may_raise': True})
         args = None if cfg['na'] == 0 else tuple(A.tensor('arg%d' % i, 2, 'real', shape=[N, A.dim('arg%d.d1' % i, 1)]) for i in range(cfg['na']))
         target = A.int('target')
